@@ -44,21 +44,6 @@ theorem foldl_joinval_mem (qs : List (Part D)) (v : D.B) (s : S) (h : γl qs s) 
 
 /-! ### the loop of `operator|=` on the same variable -/
 
-theorem absorb_sound (p : Part D) (ps : List (Part D)) (s : S) (h : D.γ p.val s ∨ γl ps s) :
-    D.γ (absorb p ps).1.val s ∨ γl (absorb p ps).2 s := by
-  induction ps generalizing p with
-  | nil => exact h
-  | cons q qs ih =>
-    simp only [absorb]
-    split
-    · apply ih
-      rcases h with h | h
-      · exact Or.inl (D.join_l _ _ _ h)
-      · rcases (γl_cons q qs s).1 h with h1 | h1
-        · exact Or.inl (D.join_r _ _ _ h1)
-        · exact Or.inr h1
-    · exact h
-
 theorem joinOne_sound (r : Part D) (k : List (Part D) → List (Part D)) (R : Prop) (s : S)
     (hk : ∀ l, (γl l s ∨ R) → γl (k l) s) (l : List (Part D))
     (h : γl l s ∨ D.γ r.val s ∨ R) : γl (joinOne r k l) s := by
